@@ -21,6 +21,13 @@ type Header struct {
 	// Whole packet length (fixed header + variable part).
 	pktLength uint16
 	pktType   PacketType
+	// The 3-octet Length form (i.e. the 4B header) is used. Always true for
+	// packets longer than 255B. A received packet may use this form even if
+	// it is shorter ("Messages with lengths smaller than 256 octets may use
+	// the shorter 1-octet format.")
+	//
+	// See MQTT-SN specification v. 1.2, chapter 5.2.1 Length.
+	longForm bool
 }
 
 func NewHeader(pktType PacketType, varPartLength uint16) *Header {
@@ -41,8 +48,10 @@ func (h *Header) PacketType() PacketType {
 func (h *Header) SetVarPartLength(length uint16) {
 	if length+shortHeaderLength <= 255 {
 		h.pktLength = length + shortHeaderLength
+		h.longForm = false
 	} else {
 		h.pktLength = length + longHeaderLength
+		h.longForm = true
 	}
 }
 
@@ -64,7 +73,7 @@ func (h *Header) PacketLength() uint16 {
 //
 // See MQTT-SN specification v. 1.2, chapter 5.2 General Message Format.
 func (h *Header) HeaderLength() uint16 {
-	if h.pktLength <= 255 {
+	if !h.longForm {
 		return shortHeaderLength
 	} else {
 		return longHeaderLength
@@ -86,10 +95,12 @@ func (h *Header) Unpack(buf []byte) error {
 		}
 		h.pktLength = binary.BigEndian.Uint16(buf[1:3])
 		h.pktType = PacketType(buf[3])
+		h.longForm = true
 	} else {
 		// Short packet (<=255B)
 		h.pktLength = uint16(lengthByte)
 		h.pktType = PacketType(buf[1])
+		h.longForm = false
 	}
 
 	return nil
